@@ -13,20 +13,26 @@ sys.path.insert(0, os.path.join(vf.VERIF, "lib"))
 import trie_gen as tg  # noqa: E402
 
 META = {
-    "text": "Theorems (Coq, parametric in the hash function, no axioms) over a case-by-case model of trie.go:update "
-            "(height 0, shortcut hit with the literal maybeAddShortcutToKV loop, shortcut creation, push-down/split via the "
-            "literal splitKeys, maybeMoveUpShortcut, DefaultLeaf deletes) for every trie height and every strictly sorted batch: "
-            "Get after Update = batch overriding old contents; canonical shape is preserved and unique, hence the tree and the root "
-            "depend only on the resulting map (any batching/order/interleaved deletions; deleting an absent key is the identity); "
-            "roots bind maps up to an explicit hash break (collision or DefaultLeaf shift pair); committed roots stay loadable from a "
-            "grow-only content-addressed store and a reopened tree equals the original.  The model is tied to /repo on every run: the "
-            "real Trie is run with a toy 32-byte hash that is also defined in Gallina and roots/Get results are compared byte for byte; "
-            "with SHA-256 and the toy hash the implementation is checked directly (Get = last write, root = root of a fresh one-batch "
-            "trie of the surviving pairs, every committed root reopens with its own contents).",
-    "note": "Trusted: Coq kernel/vm_compute (ToyHash uses primitive Uint63 in the evaluation only), Go toolchain, engine + generator. "
-            "Abstracted: the 4-level node-batch storage format (modelled as a node store), liveCache; partial: goroutine schedules of "
-            "updateParallel are exercised by the real runs but the model is sequential; Revert/Stash not modelled; values are 32-byte.",
-    "technique": "Coq proof over Gallina trie model + vm_compute correspondence under a shared toy hash + direct predicates on real runs",
+    "text": "28 theorems (Coq, no axioms, any hash H). FULL, every height and sorted batch: Get after Update / after "
+            "any history = plain map; canonical shape preserved and unique, hence tree and root depend only on the resulting map (history "
+            "independence, no collision caveat; absent deletes = identity); literal maybeAddShortcutToKV/splitKeys = abstract forms. "
+            "FULL with an explicit `\\/ hash_break H` (collision or DefaultLeaf shift pair): root binding; node-store persistence "
+            "(old roots readable, reopen = committed tree); REFINEMENT of the literal 31-slot batch layer (loadChildren, leaf/interiorHash, "
+            "moveUpShortcut, storeNode/deleteOldNode, updatedNodes, liveCache for any CacheHeightLimit with in-place aliasing, "
+            "parse/serialize, Commit) against the tree-level update; cache reads = uncached reads; parallel children touch disjoint slots. PARTIAL: the store theorems are partial-correctness (a missing batch is a load error); that no needed batch "
+            "is garbage-collected is not proved (false for two Updates before one Commit: C10:node-lost-height-byte-wrap). REFUTED with "
+            "witnesses (Revert, dead code in the node): keeps older roots (C10:revert-older-root-lost), restores the target "
+            "(C10:revert-target-lost-height-byte-wrap). Every run: the real Trie (SHA-256 and a toy hash "
+            "shared by Coq/Go/OCaml) on prefix-colliding histories incl. CacheHeightLimit values and re-pointing at earlier "
+            "roots; roots, Get, updatedNodes/liveCache dumps and Revert's deleted keys equal the model's byte for byte (extracted + vm_compute "
+            "sample); predicates: Get = last write, root = fresh one-batch root, every committed root reopens, Stash, race detector.",
+    "note": "Trusted: Coq kernel/vm_compute (primitive Uint63 only in ToyHash, evaluation only), extraction (ExtrOcamlBasic) + OCaml driver for "
+            "volume, Go toolchain and race detector, engine harness/engines/trie, generator lib/trie_gen.py, memory DB. No axioms, no translator. "
+            "Modelled, not verified: batches have value semantics except the liveCache aliasing (histories with a Commit after every Update, what "
+            "the node does); goroutines run left-then-right (disjointness proved, schedules only observed); Stash/LoadCache only exercised "
+            "(CacheHeightLimit is never set by the node: LoadCache is a no-op). Assumptions: strictly sorted non-empty batches of 32-byte keys "
+            "and 32-byte values or DefaultLeaf (stateBuffer.export), H returns 32 bytes.",
+    "technique": "Coq proof over Gallina trie + batch-storage models, refinement, extracted-model and vm_compute correspondence, direct predicates on real runs",
 }
 
 ENGINE = os.path.join(vf.HARNESS, "engines/trie/zz_verif_trie_engine_test.go")
@@ -76,7 +82,7 @@ def gen_cases(ctx):
             b["commit"] = True
         cases.append(c)
     # liveCache: non-default CacheHeightLimit, the instance pointed back at earlier roots
-    n_ct, n_cs = (60, 20) if quick else (3000, 1000)
+    n_ct, n_cs = (48, 16) if quick else (3000, 1000)
     for i in range(n_ct + n_cs):
         cases.append(tg.cache_case(rng, "toy" if i < n_ct else "sha"))
     for c in tg.load_corpus(os.path.join(vf.VERIF, "corpus", "C10", "cache")):
@@ -169,7 +175,7 @@ def revert_cases(ctx):
     """Histories (every batch committed) followed by Revert to a past root, or by one more
     uncommitted Update and Stash."""
     rng = ctx.rng
-    n = 60 if ctx.tier == "quick" else 1500
+    n = 40 if ctx.tier == "quick" else 1500
     cases = []
     for c in tg.load_corpus(os.path.join(vf.VERIF, "corpus", "C10", "revert")):
         c.setdefault("hash", "toy")
@@ -260,7 +266,7 @@ def revert_check(ctx, binp, exe):
 
 
 def classify_revert_loss(c, maps):
-    """F21-type alias: the target holds two keys differing only in the last bit and a later trie
+    """F37a-type alias: the target holds two keys differing only in the last bit and a later trie
     holds one of them alone with the same value (root shortcut, byte(256) == byte(0))."""
     t = c["target"]
     for m in maps[t + 1:]:
@@ -326,9 +332,9 @@ def predicates(cases, obs):
 
 
 def classify_error(c, o):
-    """Known class F21(trie): a sole root shortcut (height 256) is pushed down to height 0 by a
+    """Known class F37a: a sole root shortcut (height 256) is pushed down to height 0 by a
     second Update that was not preceded by a Commit (byte(256) == byte(0)).  Anything else is a
-    plain error (F22/F23(trie) were repaired in /repo; their replays are corpus regression cases)."""
+    plain error (F25 was repaired in /repo; its replays are corpus regression cases regress_F22_*/regress_F23_*)."""
     import re
     m = re.search(r"batch (\d+)", o["err"])
     if m and "unavailable" in o["err"]:
@@ -421,7 +427,7 @@ def run(ctx):
     else:
         wide = [c for c in cases if c.get("shape") not in ("exh", "corpus")]
         wide.sort(key=lambda c: -max(len(b["k"]) for b in c["batches"]))
-        sel = [dict(c, dump=False, proofs=0) for c in wide[:(80 if ctx.tier == "quick" else 1500)]]
+        sel = [dict(c, dump=False, proofs=0) for c in wide[:(50 if ctx.tier == "quick" else 1500)]]
         raced, rlog = tg.run_race(ctx, rbin, sel, "c10race")
         ctx.cov["race_detector"] = {"cases": len(sel), "data_race_reported": raced}
         if raced:
